@@ -539,6 +539,63 @@ def Wiring.roundtrip (transposed : Bool) (w : Wiring) (children : List Nat) (sig
   let w1 := Wiring.empty.connectAll stored.reverse
   { w1 with out := fun s => if sigs.contains s then reorder (savedFor firing s) (w1.out s) else w1.out s }
 
+/-! ## Part E — edits of a hand-wired graph between wiring and running: `replace_child`, `pull`
+
+Both put connection lists back after tearing them: `replace_child` via `copy_io` (which connects the replacement one
+connection at a time — prepending — to everything the owned node is connected to) and `_seat_replacement` (every
+neighbour gets the replacement exactly at the owned node's place, the prepended copy is dropped, and the replacement's own
+lists are overwritten with the owned node's); `pull` (`run_data_tree`) via saving the lists of every signal channel of the
+pulled data tree and of everything connected to one, cutting the `run` / `accumulate_and_run` inputs and the `ran` output
+of the tree nodes for a temporary linear wiring, and assigning the saved lists back. -/
+
+def sigNode (s : Sig) : Nat := s / 4
+def sigChan (s : Sig) : Nat := s % 4
+
+/-- the replaced child `i` is henceforth the object `j` -/
+def renRecv (i j : Nat) (r : Recv) : Recv := { r with node := if r.node = i then j else r.node }
+def renSig (i j : Nat) (s : Sig) : Sig := if sigNode s = i then 4 * j + sigChan s else s
+
+/-- `replace_child(i, j)` seen from the signal connections (`j` a fresh, unconnected node; `i` not connected to itself).
+`reversed = false`: the tree as it is. `true`: seeded change C02-8 — the replacement keeps the lists `copy_io` built by
+prepending, i.e. the owned node's lists backwards -/
+def Wiring.replace (reversed : Bool) (w : Wiring) (i j : Nat) : Wiring :=
+  let own {α} (l : List α) : List α := if reversed then l.reverse else l
+  { out := fun s =>
+      if sigNode s = j then own (w.out (4 * i + sigChan s))
+      else if sigNode s = i then []
+      else (w.out s).map (renRecv i j),
+    runIn := fun r =>
+      if r = j then own (w.runIn i) else if r = i then [] else (w.runIn r).map (renSig i j),
+    accIn := fun r =>
+      if r = j then own (w.accIn i) else if r = i then [] else (w.accIn r).map (renSig i j) }
+
+/-- the channels `pull` cuts for its temporary wiring: inputs of the tree nodes and their `ran` -/
+def cutSig (tree : List Nat) (s : Sig) : Bool := tree.contains (sigNode s) && sigChan s == 0
+
+def Wiring.cut (w : Wiring) (tree : List Nat) : Wiring :=
+  { out := fun s => if cutSig tree s then [] else (w.out s).filter (fun r => !tree.contains r.node),
+    runIn := fun r => if tree.contains r then [] else (w.runIn r).filter (fun s => !cutSig tree s),
+    accIn := fun r => if tree.contains r then [] else (w.accIn r).filter (fun s => !cutSig tree s) }
+
+/-- is the list of this emitting channel saved? (a channel of the tree, or — `partners` — connected to one) -/
+def savedOut (partners : Bool) (w : Wiring) (tree : List Nat) (s : Sig) : Bool :=
+  tree.contains (sigNode s) || (partners && (w.out s).any (fun r => tree.contains r.node))
+
+def savedIn (partners : Bool) (tree : List Nat) (r : Nat) (l : List Sig) : Bool :=
+  tree.contains r || (partners && l.any (fun s => tree.contains (sigNode s)))
+
+/-- the connection lists after `pull` of a child whose data tree is `tree`. `partners = true`: the tree as it is;
+`false`: seeded change C02-9 (only the lists of the tree's own channels are put back) -/
+def Wiring.pull (partners : Bool) (w : Wiring) (tree : List Nat) : Wiring :=
+  let c := w.cut tree
+  { out := fun s => if savedOut partners w tree s then w.out s else c.out s,
+    runIn := fun r => if savedIn partners tree r (w.runIn r) then w.runIn r else c.runIn r,
+    accIn := fun r => if savedIn partners tree r (w.accIn r) then w.accIn r else c.accIn r }
+
+/-- `node.pull()` of a child without upstream data: its `run()` without emission, outside any running parent -/
+def pullNode (nodes : Nat → Node) (st : Store) (i : Nat) : Store :=
+  { (runNode nodes st i).1 with execLog := st.execLog, doneLog := st.doneLog }
+
 /-! ### Finite presentation of a signal graph (what the harness reads off the real objects) and the
 decidable counterpart of the hypotheses `WF` of `C02_refines_queue` (soundness: `FinGraph.check_sound`) -/
 
